@@ -40,6 +40,8 @@ def read_case(cid, rnd):
              stale_out_mailbox=rnd.random() < 0.1, dir="read", value=[], complete=False, inject="none")
     if rnd.random() < 0.1:
         c["complete"] = True
+    if rnd.random() < 0.3:
+        c["write_mailbox_size"] = rnd.choice([16, 24, 64, 128, 512, rnd.randint(16, 1024)])
     if fault == "abort":
         c["inject"] = "abort:0x%08x" % rnd.choice(ABORTS)
     elif fault != "none":
